@@ -125,12 +125,20 @@ func parseCb(s string) resource.UpdateInterceptor {
 
 // --- executor -----------------------------------------------------------------------------------
 
+func (st *stream) isDone() bool {
+	st.mu.Lock()
+	defer st.mu.Unlock()
+	return st.done
+}
+
 type stream struct {
+	done   bool // the channel was closed by the resource
 	cancel context.CancelFunc
 	mu     sync.Mutex
 	got    []any // *resource.ValueChange | *resource.CollectionChange
 	taken  int
 	closed bool
+	pullID string // non-empty: a Collection.PullID stream on this (mapped) id; events are *ValueChange
 }
 
 func (st *stream) take(n int) []any {
@@ -160,6 +168,7 @@ type coreRun struct {
 	pubs     []proto.Message // crossing order, duplicates kept (mirrors the model's ghost list)
 	tr       *tracker
 	step     int
+	idmap    func(string) string // the configured id interceptor (identity when none)
 }
 
 func newCoreRun(init string) *coreRun {
@@ -174,6 +183,15 @@ func newCoreRun(init string) *coreRun {
 		iv := mkMsg(parseVals(t[2]))
 		vopts = append(vopts, resource.WithInitialValue(iv))
 		c.cross("init", iv)
+	}
+	c.idmap = func(s string) string { return s }
+	if len(t) > 3 && t[3] == "mod2" {
+		// named id interceptor shared with the Lean driver: i<n> -> i<n mod 2>
+		c.idmap = func(s string) string {
+			n, _ := strconv.Atoi(strings.TrimPrefix(s, "i"))
+			return "i" + strconv.Itoa(n%2)
+		}
+		copts = append(copts, resource.WithIDInterceptor(c.idmap))
 	}
 	c.val = resource.NewValue(vopts...)
 	c.coll = resource.NewCollection(copts...)
@@ -200,10 +218,13 @@ func errName(err error) string { return "err:" + status.Code(err).String() }
 
 func id(s string) string { return "i" + s }
 
-func (c *coreRun) wopts(um, b, a, e, flags string) []resource.WriteOption {
+func (c *coreRun) wopts(um, rm, b, a, e, flags string) []resource.WriteOption {
 	var o []resource.WriteOption
 	if m := parseMask(um); m != nil {
 		o = append(o, resource.WithUpdateMask(m))
+	}
+	if m := parseMask(rm); m != nil {
+		o = append(o, resource.WithResetMask(m))
 	}
 	if f := parseCb(b); f != nil {
 		o = append(o, resource.InterceptBefore(f))
@@ -240,9 +261,11 @@ func (c *coreRun) vevents(parts *[]string) {
 	}
 }
 
-func (c *coreRun) cevents(parts *[]string) {
+// cevents collects the event of the write on (mapped) id: collection-wide Pulls first, then the PullID streams
+// of that id (new value only; a REMOVE ends them without a message) — the order the model answers in.
+func (c *coreRun) cevents(parts *[]string, mapped string, removed bool) {
 	for i, s := range c.cstreams {
-		if s.closed {
+		if s.closed || s.pullID != "" {
 			continue
 		}
 		ev := s.take(1)
@@ -255,6 +278,26 @@ func (c *coreRun) cevents(parts *[]string) {
 		o := c.cross(fmt.Sprintf("Collection.Pull#%d/event.OldValue", i), ch.OldValue)
 		n := c.cross(fmt.Sprintf("Collection.Pull#%d/event.NewValue", i), ch.NewValue)
 		*parts = append(*parts, tag, o, n)
+	}
+	for i, s := range c.cstreams {
+		if s.closed || s.pullID != mapped {
+			continue
+		}
+		if removed {
+			// PullID returns on REMOVE: the stream ends, nothing is sent
+			deadline := time.Now().Add(2 * time.Second)
+			for !s.isDone() && time.Now().Before(deadline) {
+				time.Sleep(50 * time.Microsecond)
+			}
+			s.closed = true
+			continue
+		}
+		ev := s.take(1)
+		if ev == nil {
+			*parts = append(*parts, "P", "<missing event>")
+			continue
+		}
+		*parts = append(*parts, "P", c.cross(fmt.Sprintf("Collection.PullID#%d/event", i), ev[0].(*resource.ValueChange).Value))
 	}
 }
 
@@ -294,7 +337,7 @@ func (c *coreRun) exec1(t []string) string {
 		if k >= len(c.srcs) {
 			return "!bad-op"
 		}
-		res, err := c.val.Set(c.srcs[k], c.wopts(t[2], t[3], t[4], t[5], "")...)
+		res, err := c.val.Set(c.srcs[k], c.wopts(t[2], t[3], t[4], t[5], t[6], "")...)
 		if err != nil {
 			return errName(err)
 		}
@@ -345,15 +388,15 @@ func (c *coreRun) exec1(t []string) string {
 		if k >= len(c.srcs) {
 			return "!bad-op"
 		}
-		res, err := c.coll.Update(id(t[1]), c.srcs[k], c.wopts(t[3], t[4], t[5], t[6], t[7])...)
+		res, err := c.coll.Update(id(t[1]), c.srcs[k], c.wopts(t[3], t[4], t[5], t[6], t[7], t[8])...)
 		if err != nil {
 			return errName(err)
 		}
 		parts := []string{"ok", c.cross("Collection.Update/ret", res)}
-		c.cevents(&parts)
+		c.cevents(&parts, c.idmap(id(t[1])), false)
 		return strings.Join(parts, "|")
 	case "cdel":
-		res, err := c.coll.Delete(id(t[1]), c.wopts("-", "-", "-", t[2], t[3])...)
+		res, err := c.coll.Delete(id(t[1]), c.wopts("-", "-", "-", "-", t[2], t[3])...)
 		if err != nil {
 			parts := []string{errName(err)}
 			if !isNilMsg(res) {
@@ -365,7 +408,7 @@ func (c *coreRun) exec1(t []string) string {
 			return "ok|-"
 		}
 		parts := []string{"ok", c.cross("Collection.Delete/ret", res)}
-		c.cevents(&parts)
+		c.cevents(&parts, c.idmap(id(t[1])), true)
 		return strings.Join(parts, "|")
 	case "cget":
 		var o []resource.ReadOption
@@ -387,6 +430,32 @@ func (c *coreRun) exec1(t []string) string {
 			parts = append(parts, c.cross("Collection.List/ret[]", m))
 		}
 		return strings.Join(parts, "|")
+	case "cpullid":
+		uo := t[3] == "1" || t[3] == "true"
+		mapped := c.idmap(id(t[1]))
+		_, exists := c.coll.Get(id(t[1]))
+		ctx, cancel := context.WithCancel(context.Background())
+		st := &stream{cancel: cancel, pullID: mapped}
+		ch := c.coll.PullID(ctx, id(t[1]), ropts(t[2], uo)...)
+		go func() {
+			for e := range ch {
+				st.mu.Lock()
+				st.got = append(st.got, e)
+				st.mu.Unlock()
+			}
+			st.mu.Lock()
+			st.done = true
+			st.mu.Unlock()
+		}()
+		c.cstreams = append(c.cstreams, st)
+		if uo || !exists {
+			return "ok|-"
+		}
+		ev := st.take(1)
+		if ev == nil {
+			return "ok|<missing seed>"
+		}
+		return "ok|" + c.cross(fmt.Sprintf("Collection.PullID#%d/seed", len(c.cstreams)-1), ev[0].(*resource.ValueChange).Value)
 	case "cpull":
 		uo := t[2] == "1" || t[2] == "true"
 		nseed := 0
@@ -440,7 +509,7 @@ func (c *coreRun) storeImage() string {
 	return strings.Join(parts, ";")
 }
 
-var readOps = map[string]bool{"vget": true, "vpull": true, "cget": true, "clist": true, "cpull": true, "vclose": true, "cclose": true}
+var readOps = map[string]bool{"vget": true, "vpull": true, "cget": true, "clist": true, "cpull": true, "cpullid": true, "vclose": true, "cclose": true}
 
 // runCoreSeq executes cs on the real code (monitor) and, if drv != nil, on the Lean model (tie).
 func runCoreSeq(cs coreSeq, tie *lib.Tie, mon *lib.Monitor, drv *lib.Driver) {
@@ -562,7 +631,11 @@ func genCoreSeq(r *rand.Rand, n int) coreSeq {
 	if r.Intn(3) != 0 {
 		iv = genVals(r)
 	}
-	cs.Init = "init " + w + " " + iv
+	im := "-"
+	if r.Intn(3) == 0 {
+		im = "mod2"
+	}
+	cs.Init = "init " + w + " " + iv + " " + im
 	nsrc, nv, nc := 0, 0, 0
 	known := []string{} // values seen, used for expected values
 	exp := func() string {
@@ -590,7 +663,7 @@ func genCoreSeq(r *rand.Rand, n int) coreSeq {
 		case x < 2:
 			cs.Ops = append(cs.Ops, fmt.Sprintf("mutate %d %s", k, genVals(r)))
 		case x < 6:
-			cs.Ops = append(cs.Ops, fmt.Sprintf("vset %d %s %s %s %s", k, genMask(r, 60), genCb(r), genCb(r), exp()))
+			cs.Ops = append(cs.Ops, fmt.Sprintf("vset %d %s %s %s %s %s", k, genMask(r, 60), genMask(r, 85), genCb(r), genCb(r), exp()))
 		case x < 8:
 			cs.Ops = append(cs.Ops, "vget "+genMask(r, 60))
 		case x < 9 && nv < 3:
@@ -600,15 +673,19 @@ func genCoreSeq(r *rand.Rand, n int) coreSeq {
 			cs.Ops = append(cs.Ops, fmt.Sprintf("vclose %d", r.Intn(nv)))
 		case x < 14:
 			flags := []string{"c", "c", "-", "-", "cx", "x"}[r.Intn(6)]
-			cs.Ops = append(cs.Ops, fmt.Sprintf("cupd %d %d %s %s %s %s %s", r.Intn(3), k, genMask(r, 60), genCb(r), genCb(r), exp(), flags))
+			cs.Ops = append(cs.Ops, fmt.Sprintf("cupd %d %d %s %s %s %s %s %s", r.Intn(3), k, genMask(r, 60), genMask(r, 85), genCb(r), genCb(r), exp(), flags))
 		case x < 15:
 			cs.Ops = append(cs.Ops, fmt.Sprintf("cdel %d %s %s", r.Intn(3), exp(), []string{"-", "m"}[r.Intn(2)]))
 		case x < 16:
 			cs.Ops = append(cs.Ops, fmt.Sprintf("cget %d %s", r.Intn(3), genMask(r, 60)))
 		case x < 17:
 			cs.Ops = append(cs.Ops, "clist "+genMask(r, 60))
-		case x < 18 && nc < 3:
-			cs.Ops = append(cs.Ops, fmt.Sprintf("cpull %s %d", genMask(r, 60), r.Intn(4)/3))
+		case x < 18 && nc < 4:
+			if r.Intn(2) == 0 {
+				cs.Ops = append(cs.Ops, fmt.Sprintf("cpull %s %d", genMask(r, 60), r.Intn(4)/3))
+			} else {
+				cs.Ops = append(cs.Ops, fmt.Sprintf("cpullid %d %s %d", r.Intn(3), genMask(r, 60), r.Intn(4)/3))
+			}
 			nc++
 		case x < 19 && nc > 0 && r.Intn(3) == 0:
 			cs.Ops = append(cs.Ops, fmt.Sprintf("cclose %d", r.Intn(nc)))
